@@ -984,3 +984,13 @@ V("c04-base-keys-not-from-cached-grid", "C04", "R04.10", "dask_array/_expr.py",
   "        key_refs = self._cached_keys\n\n        def unwrap(task):", "        key_refs = List(*[TaskRef((self._name,) + i) for i in np.ndindex(self.numblocks)])\n\n        def unwrap(task):", expect="ArrayExpr.__dask_keys__")
 V("c04-twin-finalizer-keys-unchanged-spelling", "C04", "-", "dask_array/_expr.py",
   "    def __dask_keys__(self):\n        return [self._name]\n", "    def __dask_keys__(self):\n        name = self._name\n        return [name]\n", twin=True)
+
+# -- R02.11: layout-literal operands are recomputed when a hook rebuilds its node ------------------------------------
+V("c02-broadcast-to-shuffle-keeps-old-layout", "C02", "R02.11", "dask_array/_broadcast_to.py",
+  "        return BroadcastTo(shuffled_input, tuple(shape), tuple(chunks), self._meta)\n", "        return BroadcastTo(shuffled_input, self._shape, self._chunks, self._meta)\n", expect="BroadcastTo._accept_shuffle")
+V("c02-blockwise-shuffle-ignores-adjusted-index", "C02", "R02.11", "dask_array/_blockwise.py",
+  "        adjust_chunks = getattr(self, \"adjust_chunks\", None)\n        if adjust_chunks and shuffle_ind in adjust_chunks:\n            return None\n\n        # Shuffle each array input", "        # Shuffle each array input", expect="Blockwise._accept_shuffle")
+V("c02-twin-broadcast-to-shuffle-only-when-layout-kept", "C02", "-", "dask_array/_broadcast_to.py", None, None, twin=True, edits=[
+  ("dask_array/_broadcast_to.py", "        # Push shuffle through to input\n        shuffled_input = Shuffle(", "        if shuffle_expr.shape != self.shape or shuffle_expr.chunks != self.chunks:\n            return None\n        # Push shuffle through to input\n        shuffled_input = Shuffle("),
+  ("dask_array/_broadcast_to.py", "        return BroadcastTo(shuffled_input, tuple(shape), tuple(chunks), self._meta)\n", "        return BroadcastTo(shuffled_input, self._shape, self._chunks, self._meta)\n"),
+])
